@@ -425,17 +425,44 @@ impl CallStack {
         main_content_container: &Rc<Container>,
         j_obj: &Map<String, serde_json::Value>,
     ) -> Result<(), StoryError> {
-        self.threads.clear();
+        let j_threads =
+            j_obj
+                .get("threads")
+                .and_then(|t| t.as_array())
+                .ok_or(StoryError::BadJson(
+                    "callstack threads not found".to_owned(),
+                ))?;
 
-        let j_threads = j_obj.get("threads").unwrap();
-
-        for j_thread_tok in j_threads.as_array().unwrap().iter() {
-            let j_thread_obj = j_thread_tok.as_object().unwrap();
+        // Build the threads aside first so that a malformed entry leaves the
+        // call stack untouched.
+        let mut threads = Vec::with_capacity(j_threads.len());
+        for j_thread_tok in j_threads.iter() {
+            let j_thread_obj = j_thread_tok
+                .as_object()
+                .ok_or(StoryError::BadJson("Invalid thread object".to_owned()))?;
             let thread = Thread::from_json(main_content_container, j_thread_obj)?;
-            self.threads.push(thread);
+            if thread.callstack.is_empty() {
+                return Err(StoryError::BadJson(
+                    "A thread must have at least one call stack element".to_owned(),
+                ));
+            }
+            threads.push(thread);
         }
 
-        self.thread_counter = j_obj.get("threadCounter").unwrap().as_i64().unwrap() as usize;
+        if threads.is_empty() {
+            return Err(StoryError::BadJson(
+                "A call stack must have at least one thread".to_owned(),
+            ));
+        }
+
+        let thread_counter = j_obj
+            .get("threadCounter")
+            .and_then(|c| c.as_u64())
+            .ok_or(StoryError::BadJson("Invalid thread counter".to_owned()))?
+            as usize;
+
+        self.threads = threads;
+        self.thread_counter = thread_counter;
         self.start_of_root = Pointer::start_of(main_content_container.clone()).clone();
 
         Ok(())
